@@ -150,6 +150,13 @@ def ambiguous (before after : Pool) (o : Op) : Bool :=
   before.byPrev.any (fun p => walked.contains p.1.txid &&
     before.byPrev.any (fun q => q.1 = p.1 && q.2.id ≠ p.2.id) && !after.inOrphans p.2.id)
 
+/-- the recorded choice list of an operation; when present the model follows it and the comparison goes on -/
+def opPrio : Op → List Nat
+  | .process _ _ _ _ _ prio => prio
+  | .processOrphans _ prio => prio
+  | .connect _ prio => prio
+  | _ => []
+
 def runCmds (pol : Policy) : State → List Cmd → List String
   | _, [] => []
   | st, .skip :: rest => "z" :: runCmds pol st rest
@@ -158,7 +165,7 @@ def runCmds (pol : Policy) : State → List Cmd → List String
     ((if st.pool.pool.all (·.fresh) then "t:1;" else "t:?;") ++ showPool st.pool) :: runCmds pol st rest
   | st, .op o :: rest =>
     let r := step pol st o
-    if ambiguous st.pool r.1.pool o then ["nd"]
+    if ambiguous st.pool r.1.pool o && (opPrio o).isEmpty then ["nd"]
     else (showResult r.2 ++ ";" ++ showPool r.1.pool) :: runCmds pol r.1 rest
 
 def handle : List String → String
